@@ -15,8 +15,9 @@
      (2) completely, for every cover oracle whose answers are certified (valid cover + matching of equal size), and
          unconditionally for the model of minimum_vertex_cover (certified on every call by C18): C20_opchains_bond_le_chains,
          C20_opchains_bond_le_chains_model.
-     (3) only in total: node and edge counts do not increase (C16); per layer it is NOT proved (C20_simplify_bond_le_partial):
-         it is evaluated by the kernel on every generated case of the correspondence check (check_simplify) and by prop.
+     (3) completely for well-formed graphs (C16's WF: what OpGraph.is_consistent plus "no dangling nodes" means):
+         C20_simplify_bond_le, C20_merge_edges_bond_le - no layer grows, no layer is added (the layers of a well-formed graph are
+         the level sets of its level function; a merge keeps node ids, start terminal and level functions).
      (1) NOT proved: "generic" is a measure-theoretic qualifier and rank is numerical — prop only (harness/props/c20.py compares
          MPO.bond_dims with numerical operator Schmidt ranks).  Kernel-computed instead, BOUNDED in L (L <= 8) and at sample
          parameter values: the closed-form bond dimensions of every built-in model graph (C20_dims_*_bounded).
@@ -25,7 +26,7 @@ From Coq Require Import ZArith QArith Qcanon List Bool Lia.
 From PT Require Import Base.Scalar Base.BigSum Base.Mx Model.OpGraph Model.Bipartite Model.FromOpchains Model.GraphMPO
                        Model.Rewrites Model.Hamiltonians Model.Compact
                        Proofs.RewritesBase Proofs.RewritesAll
-                       Proofs.CompactCount Proofs.CompactLayers Proofs.CompactSweep Proofs.CompactCert.
+                       Proofs.CompactCount Proofs.CompactLayers Proofs.CompactSweep Proofs.CompactCert Proofs.CompactSimplify.
 Import ListNotations.
 Open Scope Z_scope.
 
@@ -87,19 +88,38 @@ Theorem C20_layers_in_blocks : forall (R : cring) (beta : nat -> Z) (K N : nat),
 Proof. exact bond_dims_le. Qed.
 Print Assumptions C20_layers_in_blocks.
 
-(* (3) simplify.  What C16 gives (C16_simplify): well-formedness and the denoted operator are preserved, the number of
-   edges and the TOTAL number of nodes do not increase.  Stated here again in the vocabulary of C20.
-   NOT proved: that no single layer grows (full intended statement:
-     WF g -> simplify g = Some g' -> bond_dims g = Some ws -> bond_dims g' = Some ws' -> Forall2 le ws' ws);
-   this is evaluated in Coq on every generated case (Model/Compact.v check_simplify: pointwise_le after before). *)
-Theorem C20_simplify_bond_le_partial : forall (R : cring) (g g' : graph R),
+(* (3) simplify.  What C16 gives (C16_simplify): well-formedness and the denoted operator are preserved, the number of edges
+   and the TOTAL number of nodes do not increase.  Added here: per layer.  For every coefficient ring and every well-formed
+   graph g: if simplify returns g' (it always does: C16_simplify_terminates) and from_opgraph finds the layers of both, then
+   g' has no more layers than g and every layer of g' is at most as wide as the corresponding layer of g. *)
+Theorem C20_simplify_bond_le : forall (R : cring) (g g' : graph R) ws ws',
+  WF R g -> simplify g = Some g' -> bond_dims g = Some ws -> bond_dims g' = Some ws' ->
+  (length ws' <= length ws)%nat /\ forall i w', nth_error ws' i = Some w' -> exists w, nth_error ws i = Some w /\ (w' <= w)%nat.
+Proof. exact simplify_bond_le. Qed.
+Print Assumptions C20_simplify_bond_le.
+(* the same for a single merge_edges call under exactly the guards the code checks (both branches, both directions) *)
+Theorem C20_merge_edges_bond_le : forall (R : cring) (g g' : graph R) a b d ws ws',
+  WF R g -> merge_edges g a b d = Some g' -> bond_dims g = Some ws -> bond_dims g' = Some ws' ->
+  (length ws' <= length ws)%nat /\ forall i w', nth_error ws' i = Some w' -> exists w, nth_error ws i = Some w /\ (w' <= w)%nat.
+Proof. exact merge_edges_bond_le. Qed.
+Print Assumptions C20_merge_edges_bond_le.
+(* the layers from_opgraph finds in a well-formed graph are exactly the level sets of any level function *)
+Theorem C20_layers_are_level_sets : forall (R : cring) (g : graph R), WF R g ->
+  forall lv, (forall e, In e (g_edges g) -> lv (e_to e) = lv (e_from e) + 1) ->
+  forall ls, layers (S (length (g_nodes g))) g [g_t0 g] = Ok ls ->
+  forall i l, nth_error ls i = Some l ->
+  NoDup l /\ forall x, In x l <-> In x (nids R g) /\ lv x = lv (g_t0 g) + 1 + Z.of_nat i.
+Proof. intros R g W lv Hlv ls H. exact (proj1 (graph_layers_levels R g W lv Hlv ls H)). Qed.
+Print Assumptions C20_layers_are_level_sets.
+(* C16's totals, restated *)
+Theorem C20_simplify_totals : forall (R : cring) (g g' : graph R),
   WF R g -> simplify g = Some g' ->
   WF R g' /\ (forall w, den g' w = den g w) /\
   (length (g_nodes g') <= length (g_nodes g))%nat /\ (length (g_edges g') <= length (g_edges g))%nat.
 Proof.
   intros R g g' W H. destruct (simplify_ok R g g' W H) as [A [B [C D]]]. auto.
 Qed.
-Print Assumptions C20_simplify_bond_le_partial.
+Print Assumptions C20_simplify_totals.
 
 (* ---- BOUNDED kernel computations (L = 1 .. 8, sample parameter values): closed-form bond dimensions of the model graphs
         built with the model cover routine.  XXZ: [1,4,5,...,5,4,1] for L >= 4 and [1,4,..,4,1] below; Bose-Hubbard [1,4,...,4,1];
@@ -136,7 +156,7 @@ Definition c20_chains : list (chain Zring) :=
    @mkchain Zring [1; 2] [0; 0; 0] 5 1%nat; @mkchain Zring [3] [0; 0] 0 2%nat; @mkchain Zring [0; 3] [0; 0; 0] 4 0%nat].
 Example C20_nonvacuous_bound :
   match from_opchains cover_model c20_chains 3 0, start_state c20_chains 3 0 with
-  | Ok g, Some s0 => calls_certifiedb cover_model 3 s0 = true /\ nz_count c20_chains = 5%nat /\ bond_dims g = Some [1; 3; 2; 1]%nat
+  | Ok g, Some s0 => calls_certifiedb cover_model 3 s0 = true /\ nz_count c20_chains = 5%nat /\ bond_dims g = Some [1; 2; 2; 1]%nat
   | _, _ => False
   end.
 Proof. vm_compute. repeat split; reflexivity. Qed.
@@ -152,5 +172,5 @@ Example C20_nonvacuous_simplify :
     [@mkedge GIring 0 0 1 [(0, (1, 0))]; @mkedge GIring 1 0 3 [(0, (1, 0))]; @mkedge GIring 2 0 4 [(0, (1, 0))];
      @mkedge GIring 3 1 2 [(1, (1, 0))]; @mkedge GIring 4 3 2 [(1, ((-1), 0))];
      @mkedge GIring 5 4 2 [(0, (0, 1)); (1, (2, 0))]] 0 2 in
-  check_simplify g [1; 3; 1]%nat [1; 2; 1]%nat = true.
-Proof. vm_compute. reflexivity. Qed.
+  check_simplify g [1; 3; 1]%nat [1; 2; 1]%nat = true /\ WF GIring g.
+Proof. split; [vm_compute; reflexivity|apply wfb_WF; vm_compute; reflexivity]. Qed.
